@@ -313,6 +313,13 @@ def case_deferred(seed, out, spec, wd, idx):
         if check_completion(where, d, c, inv, probs):
             kind = [t[1] for t in tps if t[0] == snap_tp][0]
             if kind == 'mcapture':
+                if inv is not None and p.ev is not None and p.ev.fid != inv.fid and p.ev.kind in ('return', 'exception'):
+                    # completed by the end of *another* invocation while the opening one is still running (its result,
+                    # even where it reads the same, is not the result of the invocation the tracepoint was hit in)
+                    probs.append(('deferred:recursion-inner-result',
+                                  '%s was completed at the %s of another invocation (%s() at line %s) while the opening '
+                                  'invocation was still running' % (where, p.ev.kind, p.ev.func, p.ev.line)))
+                    continue
                 check_capture(where, p.snapshot, inv, probs)
         out.count('capture_openings')
         tally(out, inv, invs)
